@@ -314,7 +314,22 @@ def maps(ctx, d):
 def _mgr_cases(tier):
     from vlib import mgrlib as MG
 
-    return MG.manager_cases(tier, tasks=("detection", "tracking"), max_frames=3)
+    def strip_ids(t):
+        d, how = t
+        # detection does not need instance ids: objects without uuid (detections usually have none, hand-built ground
+        # truths may have none) or with ids shared between annotations; uuid filters are switched off in that case
+        if d["task"] == "detection" and how != "keep":
+            d["mgr"]["uuids"] = None
+            for f in d["frames"]:
+                f["crit"]["uuids"] = None
+                for i, o in enumerate(f["gt"]):
+                    o["uuid"] = None if how == "none" else f"shared{i % 2}"
+                for o in f["est"]:
+                    o["uuid"] = None
+            d["uuid_mode"] = how
+        return d
+
+    return st.tuples(MG.manager_cases(tier, tasks=("detection", "tracking"), max_frames=3), st.sampled_from(["keep", "keep", "none", "shared"])).map(strip_ids)
 
 
 @CHECK.given("manager_scenes", _mgr_cases, quick=90, thorough=4000)
@@ -325,6 +340,8 @@ def manager_scenes(ctx, d):
     run = MG.run_case(ctx, d)
     if run is None:
         return
+    if d.get("uuid_mode"):
+        ctx.cls("objects_without_unique_uuid")
     targets, pol = d["targets"], d["policy"]
     labels_with_results = set()
     for i, res in enumerate(run["results"]):
